@@ -67,3 +67,20 @@ Theorem c19_v2_publish_class : forall st p s dp st' code,
   exists c, class_of_grpc code = Some c /\ In c (causes_v2_publish st p s dp).
 Proof. exact v2_publish_class. Qed.
 Print Assumptions c19_v2_publish_class.
+
+(* claims: 'already exists' only when some named actuator has a registered owner (live, or lost and not yet removed by
+   housekeeping); naming an actuator twice in one claim is no such cause *)
+Theorem c19_claim_already_exists : forall st p ids st',
+  provide_actuation st p ids = (st', inr AAlreadyExists) ->
+  exists id a, In id ids /\ In a (st_asubs st) /\ as_registered a = true /\ In id (as_ids a).
+Proof. exact claim_already_exists_cause. Qed.
+Print Assumptions c19_claim_already_exists.
+
+(* a claim whose actuators all exist, may be actuated by the caller and have no registered owner is served *)
+Theorem c19_claim_served : forall st p ids,
+  first_error (can_actuate_id (st_db st) p (st_now st)) ids = None ->
+  (forall id a, In id ids -> In a (st_asubs st) -> as_registered a = true -> ~ In id (as_ids a)) ->
+  exists h, snd (provide_actuation st p ids) = inl h.
+Proof. exact claim_served. Qed.
+Print Assumptions c19_claim_served.
+
